@@ -145,6 +145,8 @@ type fleetHook interface {
 	event(x *fleetExec, e engine.Event) bool
 	// after runs after every executed common event (invariants).
 	after(x *fleetExec, e engine.Event, nd *knode)
+	// sent is called after a node has been serialised into message m.
+	sent(x *fleetExec, e engine.Event, nd *knode, m *kmsg)
 	// decoded is called when a message has been decoded into a fresh or re-used sketch d.
 	decoded(x *fleetExec, e engine.Event, nd *knode, m *kmsg, d sk, dm *refmodel.RefSketch)
 	// query evaluates the property's oracles on a query event.
@@ -156,6 +158,7 @@ type noHook struct{}
 
 func (noHook) event(*fleetExec, engine.Event) bool                                      { return false }
 func (noHook) after(*fleetExec, engine.Event, *knode)                                   {}
+func (noHook) sent(*fleetExec, engine.Event, *knode, *kmsg)                             {}
 func (noHook) decoded(*fleetExec, engine.Event, *knode, *kmsg, sk, *refmodel.RefSketch) {}
 func (noHook) query(*fleetExec, engine.Event, *knode)                                   {}
 func (noHook) quiesce(*fleetExec)                                                       {}
@@ -556,6 +559,7 @@ func (x *fleetExec) send(e engine.Event, nd *knode, sig string) {
 	}
 	x.msgs[id] = m
 	x.st.Probe("message-" + e.S)
+	x.hook.sent(x, e, nd, m)
 	if wantSnap {
 		after := x.snapSketch(nd.real, "send-after")
 		m.snap = after
@@ -603,7 +607,8 @@ func (x *fleetExec) concat(e engine.Event) {
 			return
 		}
 		if out == nil {
-			out = &kmsg{form: m.form, model: m.model.Clone(), spec: m.spec, mkey: m.mkey, exact: m.exact, sentAt: x.at, hasMapping: m.hasMapping}
+			// the content of a frame is what its (possibly bounded) producer held; the concatenation itself is unbounded
+			out = &kmsg{form: m.form, model: m.model.CloneAs(refmodel.Sparse, 0), spec: m.spec, mkey: m.mkey, exact: m.exact, sentAt: x.at, hasMapping: m.hasMapping}
 			out.data = append([]byte(nil), m.data...)
 			out.parts = m.parts
 			continue
@@ -633,7 +638,7 @@ func (x *fleetExec) deliver(e engine.Event, nd *knode, sig string) bool {
 	if nd.exact() && !m.exact {
 		return false // documented: the exact decoder cannot take a plain encoding
 	}
-	if m.exact && !nd.exact() && (m.form == "bin" || m.form == "binomit") && x.prop != "C07" && x.prop != "C06" && x.prop != "C10" {
+	if m.exact && !nd.exact() && (m.form == "bin" || m.form == "binomit") && x.prop != "C07" && x.prop != "C10" {
 		return false
 	}
 	if (m.form == "pb" || m.form == "pbstream") && nd.exact() {
@@ -653,12 +658,17 @@ func (x *fleetExec) deliver(e engine.Event, nd *knode, sig string) bool {
 	if m.form == "pb" || m.form == "pbstream" {
 		mode = "fresh"
 	}
+	decodeOracle := "decode-valid-encoding"
+	if m.exact && !nd.exact() && x.prop == "C07" {
+		decodeOracle = "plain-accepts-exact"
+		x.st.Oracle(decodeOracle)
+	}
 	switch mode {
 	case "merge":
 		nd.each(func(s sk) {
 			x.lib("DecodeAndMergeWith", sig, func() {
 				if err := s.DecodeAndMergeWith(append([]byte(nil), m.data...)); err != nil {
-					x.fail("decode-valid-encoding", sig, "decoding a valid encoding into a sketch with the same mapping failed: "+err.Error(), "nil error", err.Error())
+					x.fail(decodeOracle, sig, "decoding a valid encoding into a sketch with the same mapping failed: "+err.Error(), "nil error", err.Error())
 				}
 			})
 		})
@@ -698,7 +708,7 @@ func (x *fleetExec) deliver(e engine.Event, nd *knode, sig string) bool {
 					d, err = ddsketch.DecodeDDSketch(append([]byte(nil), m.data...), prov, im)
 				}
 				if err != nil {
-					x.fail("decode-valid-encoding", sig, "decoding a valid encoding failed: "+err.Error(), "nil error", err.Error())
+					x.fail(decodeOracle, sig, "decoding a valid encoding failed: "+err.Error(), "nil error", err.Error())
 				}
 			})
 		case "pb", "pbstream":
@@ -744,16 +754,16 @@ type skSnap struct {
 	// approximate sum is accumulated in iteration order, which for the sparse
 	// store is the map order, so with mixed signs it may differ arbitrarily from
 	// call to call (cancellation); it is a function of the bins, which are compared.
-	SumExact bool
-	Empty    bool
-	Min, Max         float64
-	MinErr, MaxErr   bool
-	Quant            []float64
-	QuantErr         bool
-	Batch            []float64
-	BatchErr         bool
-	Each             []vbin
-	Pos, Neg         *storeSnap
+	SumExact       bool
+	Empty          bool
+	Min, Max       float64
+	MinErr, MaxErr bool
+	Quant          []float64
+	QuantErr       bool
+	Batch          []float64
+	BatchErr       bool
+	Each           []vbin
+	Pos, Neg       *storeSnap
 }
 
 func fbits(f float64) uint64 {
